@@ -27,7 +27,7 @@ ASSUMPTIONS = [
     "Root/ChildResolverError.node must be the node at which the failing component was evaluated and ChildResolverError.child that component; messages are not compared",
 ]
 SEPS = ["/", "|", "::", "\\", "-", " ", "->", "x", " of "]
-ALPHABET = "abAB01.+*?[]()|^$\\ '\"\néÉжЖ漢/:-"
+ALPHABET = "abAB01.+*?[]()|^$\\ '\"\néÉжЖ漢/:-\u0301\u2000"  # incl. a combining accent and EN QUAD: text that Unicode normalisation would rewrite
 
 
 def flip_case(text, mask):
@@ -342,7 +342,7 @@ def random_cases(draw):
     sep = draw(st.sampled_from(SEPS))
     pathattr = draw(st.sampled_from(["name", "name", "id"]))
     ic = draw(st.booleans())
-    names = [draw(st.one_of(name_strategy(sep), name_strategy(sep), st.integers(0, 12).map(lambda i: {"int": i}), name_strategy(sep).map(lambda t: {"tag": t}), st.lists(st.integers(0, 3), max_size=2).map(lambda v: {"tup": v} if sep not in (" ", "-") else {"int": len(v)}))) for _ in range(size)]
+    names = [draw(st.one_of(name_strategy(sep), name_strategy(sep), st.integers(0, 12).map(lambda i: {"int": i}), st.tuples(st.sampled_from(["plain", "int", "str", "flag"]), st.integers(0, 2)).map(lambda t: {"enum": list(t)}), name_strategy(sep).map(lambda t: {"tag": t}), st.lists(st.integers(0, 3), max_size=2).map(lambda v: {"tup": v} if sep not in (" ", "-") else {"int": len(v)}))) for _ in range(size)]
     unique = draw(st.integers(0, 9)) < 7
     if unique:
         names = uniquify(names, parents)
